@@ -86,7 +86,8 @@ fn replay(path: &str) -> i32 {
         "C03" => checks::valuespace::replay(Prop::C03, &case),
         "C04" => checks::valuespace::replay(Prop::C04, &case),
         "C05" => checks::c05::replay(&case),
-        "C06" | "C07" | "C08" => checks::c07::replay(&case),
+        "C06" | "C07" => checks::c07::replay(&case),
+        "C08" => checks::c08::replay(&case),
         "C09" => checks::c09::replay(&case),
         "C10" => checks::c10::replay(&case),
         "C11" => checks::c11::replay(&case),
